@@ -111,6 +111,16 @@ inline RayHit rayTri(V3 o, V3 d, V3 a, V3 b, V3 c) {
     h.t = dot(n, a - o) / nd; V3 x = o + h.t * d - a;      // barycentric by areas
     h.v = dot(cross(x, e2), n) / (nn * nn); h.w = dot(cross(e1, x), n) / (nn * nn); h.u = 1 - h.v - h.w; return h;
 }
+// Site predicate of the point/triangle "region 6" finding (ContactGeometry::TriangleMesh::findNearestPointToFace): true iff the query
+// falls (with a 1e-9 relative margin) into Eberly's region 6, sub-branch "temp1 <= temp0, temp1 > 0", with sign(e) != sign(d).
+inline bool eberlyRegion6Site(V3 q, V3 v1, V3 v2, V3 v3) {
+    V3 e0 = v2 - v1, e1 = v3 - v1, dl = v1 - q; LD a = dot(e0, e0), b = dot(e0, e1), c = dot(e1, e1), d = dot(e0, dl), e = dot(e1, dl), det = a * c - b * b, s = b * e - c * d, t = b * d - a * e;
+    LD m = 1e-9L * (std::fabs(b * e) + std::fabs(c * d) + std::fabs(b * d) + std::fabs(a * e) + a * c), m2 = 1e-9L * (a + std::fabs(b) + std::fabs(d) + std::fabs(e));
+    if (s + t <= det - m || s < -m || !(t < m)) return false;
+    LD temp0 = b + e, temp1 = a + d; if (temp1 > temp0 + m2 || temp1 <= -m2) return false;
+    if (std::fabs(e) <= m2 || std::fabs(d) <= m2) return true;
+    return (e >= 0) != (d >= 0);
+}
 inline LD distPointLine(V3 p, V3 o, V3 d) { V3 x = p - o; LD s = dot(x, d); if (s < 0) s = 0; return norm(x - s * d); }   // half line
 
 // minimal enclosing ball upper bound (Badoiu-Clarkson core-set iteration): returns a radius R >= Rmin (R -> Rmin), and the centre
